@@ -9,6 +9,7 @@ import (
 	"encoding/binary"
 	"fmt"
 	"runtime"
+	"strings"
 
 	blake2b "github.com/minio/blake2b-simd"
 )
@@ -163,3 +164,6 @@ func verifIfaceEq(a, b interface{}) bool { return verifDeepEq(a, b) }
 func verifStrSame(a, b string) bool { return a == b }
 func verifNondetKey(name string) uint64 { return vrNext(name) }
 func verifNondetVal(name string) uint64 { return vrNext(name) }
+func verifErrHas(err error, s string) bool {
+	return err != nil && strings.Contains(err.Error(), s)
+}
